@@ -53,17 +53,18 @@ var c13Clean = map[string][]string{
 	"iso":      {"2019-12-31", "2020-01-01", "2020-01-02", "2020-02-01", "2020-10-05", "2021-01-01", "2021-03-04", "2020-11-30"},
 	"us":       {"12/31/2019", "01/01/2020", "01/02/2020", "02/01/2020", "10/05/2020", "01/01/2021", "03/04/2021", "11/30/2020"},
 	"rfc3339":  {"2020-01-01T00:00:00Z", "2020-01-01T00:00:01Z", "2020-01-01T10:00:00Z", "2020-01-02T03:04:05Z", "2019-12-31T23:59:59Z", "2020-10-10T10:10:10Z"},
+	"rfc3339ms": {"2020-01-01T00:00:00.250Z", "2020-01-01T00:00:00.750Z", "2020-01-01T00:00:00.500Z", "2020-01-01T00:00:01.100Z", "2019-12-31T23:59:59.900Z", "2020-01-01T00:00:00.125Z", "2020-01-01T00:00:01.050Z"},
 	"words":    {"alpha", "Beta", "gamma", "delta", "Echo", "zulu", "_x", "~y", "Alpha", "beta"},
 }
 
-var c13CleanLayout = map[string]string{"iso": "2006-01-02", "us": "01/02/2006", "rfc3339": time.RFC3339}
+var c13CleanLayout = map[string]string{"iso": "2006-01-02", "us": "01/02/2006", "rfc3339": time.RFC3339, "rfc3339ms": time.RFC3339Nano}
 
 // which families a mode's meaning is decided for
 var c13CleanModes = map[string][]string{
 	"text":       {"ints", "decimals", "weekdays", "months", "iso", "us", "words", "monabbr"},
 	"numeric":    {"ints", "decimals"},
 	"contextual": {"weekdays", "wkabbr", "months", "monabbr"},
-	"date":       {"iso", "us", "rfc3339"},
+	"date":       {"iso", "us", "rfc3339", "rfc3339ms"},
 	"value":      {"ints", "words", "iso", "weekdays"},
 }
 
@@ -90,7 +91,7 @@ func c13Expected(keys []string, counts map[string]int, family, mode, mod string)
 			if err != nil {
 				panic(err)
 			}
-			return float64(tm.Unix())
+			return float64(tm.UnixNano()) / 1e6 // milliseconds: exact in a float64
 		case "value":
 			return -float64(counts[k]) // larger totals first
 		}
@@ -122,17 +123,42 @@ type c13Scenario struct {
 	Pool   string
 	TopN   int // histo -n (0: show everything)
 	// clean scenarios: rows and columns have their own family, sort mode and modifier
+	RedExpr          string // reduce: --sort expression ("" = by group key)
 	Clean            bool
 	RowFam, ColFam   string
 	ColSort, ColMod  string
 }
 
-func c13Gen(t *simrt.Tape) *c13Scenario {
+func c13Gen(t *simrt.Tape, free bool) *c13Scenario {
 	sc := &c13Scenario{}
-	sc.Cmd = []string{"histo", "histo", "table", "bars", "heatmap", "spark", "bars2", "histo-large"}[t.W(8)]
+	sc.Cmd = []string{"histo", "histo", "table", "bars", "heatmap", "spark", "bars2", "histo-large", "reduce", "reduce-large"}[t.W(10)]
+	if free {
+		// leg B (real parallelism under the race detector): key sets large enough for any code that only goes parallel
+		// above a size threshold
+		sc.Cmd = []string{"reduce-large", "histo-large", "reduce-large", "table"}[t.W(4)]
+	}
 	sc.Sort = []string{"text", "numeric", "contextual", "date", "value"}[t.W(5)]
 	sc.Mod = []string{"", "", ":asc", ":desc", ":reverse"}[t.W(5)]
-	if sc.Cmd != "histo-large" && sc.Cmd != "bars2" && t.WBool(1, 3) {
+	if sc.Cmd == "reduce-large" && !free && !t.WBool(1, 4) {
+		sc.Cmd = "reduce" // the large kind is expensive: one scenario in forty
+	}
+	if sc.Cmd == "reduce" || sc.Cmd == "reduce-large" {
+		// `rare reduce` orders its groups with the contextual sorter, by group key or by the value of a --sort expression
+		// (equal values: by group key); --sort-reverse mirrors
+		sc.Sort = "reduce"
+		sc.RedExpr = []string{"", "", "{n}", "{bucket {n} 2}", "{0}"}[t.W(5)]
+		if sc.Cmd == "reduce-large" {
+			sc.Cmd = "reduce"
+			n := t.WRange(1030, 1300)
+			for i := 0; i < n; i++ {
+				sc.Keys = append(sc.Keys, fmt.Sprintf("g%04d", (i*7919)%n))
+				sc.Counts = append(sc.Counts, 1+t.W(2))
+			}
+			sc.Pool = "synthetic-large"
+			return sc
+		}
+	}
+	if sc.Cmd != "histo-large" && sc.Cmd != "bars2" && sc.Cmd != "reduce" && t.WBool(1, 3) {
 		// a clean scenario: the meaning of the mode is decided, rows and columns independently
 		sc.Clean = true
 		fams := c13CleanModes[sc.Sort]
@@ -221,8 +247,11 @@ func c13Gen(t *simrt.Tape) *c13Scenario {
 		// many groups and a small -n: the top-N selection must not depend on map order either
 		sc.Cmd = "histo"
 		n := t.WRange(128, 220)
+		if free {
+			n = t.WRange(1030, 1300)
+		}
 		for i := 0; i < n; i++ {
-			sc.Keys = append(sc.Keys, fmt.Sprintf("k%03d", i))
+			sc.Keys = append(sc.Keys, fmt.Sprintf("k%04d", i))
 			sc.Counts = append(sc.Counts, 1+t.W(3))
 		}
 		sc.TopN = t.WRange(3, n/8)
@@ -299,6 +328,16 @@ func (sc *c13Scenario) scenario(sortArg string, t *simrt.Tape, shuffle []int) *c
 		out.Regex = `^(.*)$`
 		out.Tpls = []c3Tpl{{{Grp: 1}}}
 		out.Flags = append(common, "bars", "--sort", sortArg)
+	case "reduce":
+		out.Regex = `^(.*)$`
+		out.Tpls = []c3Tpl{{{Grp: 1}}}
+		out.Flags = append(common, "reduce", "-g", "{0}", "-a", "n={sumi {.} 1}", "--rows", "100000")
+		if sc.RedExpr != "" {
+			out.Flags = append(out.Flags, "--sort", sc.RedExpr)
+		}
+		if strings.HasSuffix(sortArg, ":reverse") || strings.HasSuffix(sortArg, ":desc") {
+			out.Flags = append(out.Flags, "--sort-reverse")
+		}
 	case "table", "heatmap", "spark":
 		out.Regex = `^([^\t]*)\t([^\t]*)$`
 		out.Tpls = []c3Tpl{{{Grp: 1}}, {{Grp: 2}}}
@@ -376,6 +415,18 @@ func (sc *c13Scenario) labels(stdout string) (rows, cols []string, err error) {
 			}
 			rows = append(rows, f[0])
 		}
+	case "reduce":
+		// header row, then one row per group: the first cell is the group key
+		for i, l := range body {
+			if i == 0 {
+				continue
+			}
+			f := strings.Fields(l)
+			if len(f) == 0 {
+				return nil, nil, fmt.Errorf("cannot parse reduce line %q", l)
+			}
+			rows = append(rows, f[0])
+		}
 	case "table":
 		if len(body) == 0 {
 			return nil, nil, nil
@@ -403,8 +454,8 @@ func c13Reverse(xs []string) []string {
 func init() {
 	worlds["C13"] = func(rc *RunCtx) {
 		t := rc.Tape
-		sc := c13Gen(t)
-		if len(sc.Cols) > 0 {
+		sc := c13Gen(t, rc.Mode == simrt.ModeFree)
+		if len(sc.Cols) > 0 || sc.Cmd == "reduce" {
 			// table cells are parsed by whitespace: keep keys free of spaces (none of the pools has them)
 			for _, k := range append(append([]string{}, sc.Keys...), sc.Cols...) {
 				if strings.ContainsAny(k, " \t") {
@@ -433,6 +484,12 @@ func init() {
 			}
 		}
 		desc := map[string]any{"cmd": sc.Cmd, "sort": sortArg, "pool": sc.Pool, "keys": sc.Keys, "counts": sc.Counts, "cols": sc.Cols}
+		if sc.Cmd == "reduce" {
+			desc["sort_expression"] = sc.RedExpr
+			if len(sc.Keys) > 40 {
+				desc["keys"], desc["counts"] = fmt.Sprintf("%d synthetic groups", len(sc.Keys)), "1-2 each"
+			}
+		}
 		if sc.Clean {
 			desc["clean"] = true
 			if len(sc.Cols) > 0 {
@@ -474,10 +531,18 @@ func init() {
 			return run{v: v, rows: rows, cols: cols, sortArg: sa}, true
 		}
 		nVar := t.WRange(4, 6)
+		if len(sc.Keys) > 500 {
+			nVar = 3
+		}
 		for i := 0; i < nVar; i++ {
 			cs0 := &c3Scenario{Lines: make([]c3Line, nLines)}
 			v := c3GenVariant(t, cs0, i == 0)
 			v.Gz = make([]bool, len(v.Files)) // plain files only: decompression is not this world's subject
+			if len(sc.Keys) > 500 {
+				// more than a thousand rows: every intermediate render sorts and redraws all of them; keep the number of
+				// renders small (no read latencies) so that the scenario stays affordable
+				v.LatPm, v.LatMs = 0, 0
+			}
 			// arrival order of lines is part of what must not matter
 			var shuffle []int
 			if i > 0 {
